@@ -337,8 +337,8 @@ class TypeGen:
                 gens = [i for i in done if self.prog["classes"][i].get("params")]
                 i = pick(d, gens) if gens and chance(d, 0.4) else self.new_class(depth - 1, flavor="dataclass", params=["T"])
                 arg = self.leaf() if depth <= 1 or chance(d, 0.6) else self.type(depth - 1)
-                if arg["k"] == "lit" and not self.cfg["lit_in_union"]:
-                    arg = {"k": "str"}  # T also appears as Optional[T]: no Literal member of a union
+                if not self.cfg["lit_in_union"]:
+                    arg = self._nolit_alt(arg)  # T also appears as Optional[T]: no Literal / Annotated-union member of a union
                 return {"k": "cls", "i": i, "args": [arg]}
             done = [i for i in done if not self.prog["classes"][i].get("params")]
             if done and chance(d, 0.25):
